@@ -115,3 +115,125 @@ Theorem c17_csi_reread_min_offset :
     binned_min_offset ms d (reread_loffs bm lm) s = binned_min_offset ms d lm s.
 Proof. exact csi_reread_min_offset. Qed.
 Print Assumptions c17_csi_reread_min_offset.
+
+(* ---- CSI byte layout (the uncompressed payload inside BGZF): magic, min_shift, depth, aux
+   (tabix header), per reference the bins (id, stored loffset, chunks) and the metadata
+   pseudo-bin, optional n_no_coor.  Writing a structurally valid index succeeds, and reading the
+   bytes back gives the same geometry, bins, chunks, metadata pseudo-bins and unplaced count, the
+   header normalised, and the per-bin loffsets replaced by the stored ancestor-chain minima. ---- *)
+From NV Require Import Index.CsiLayout Index.CsiLayoutProofs.
+
+Theorem c17_csi_layout_roundtrip :
+  forall i, csi_ok i ->
+    w_csi i = WOk (w_csi_bytes i) /\ read_csi (w_csi_bytes i) = Some (reread_csi i).
+Proof. exact csi_layout_roundtrip. Qed.
+Print Assumptions c17_csi_layout_roundtrip.
+
+(* end to end: the CSI index the Indexer builds for a file, written to its byte layout and read
+   back, has the same bins and metadata and answers every region query on every reference with
+   the same chunks as the index in memory *)
+Theorem c17_csi_file_roundtrip_queries :
+  forall ms d file hdr meta nref unplaced,
+    let i := built_csi ms d file hdr meta nref unplaced in
+    csi_ok i -> spans_ok ms d file ->
+    exists i',
+      w_csi i = WOk (w_csi_bytes i) /\ read_csi (w_csi_bytes i) = Some i' /\
+      ci_ms i' = ms /\ ci_depth i' = d /\ ci_header i' = option_map norm_header hdr /\
+      ci_unplaced i' = unplaced /\ length (ci_refs i') = nref /\
+      forall k, (k < nref)%nat ->
+        let ix := build_ref ms d (N.of_nat k) file in
+        let r' := nth k (ci_refs i') empty_cref in
+        cr_bins r' = bins ix /\ cr_meta r' = meta k /\
+        forall qs qe, query Binned ms d (cref_refidx r') qs qe = query Binned ms d ix qs qe.
+Proof. exact csi_file_roundtrip_queries. Qed.
+Print Assumptions c17_csi_file_roundtrip_queries.
+
+(* the same for any structurally valid CSI index whose loffset keys are its bin ids, inside the scheme *)
+Theorem c17_csi_file_roundtrip_queries_any :
+  forall i, csi_ok i ->
+    (forall r, In r (ci_refs i) ->
+       NoDup (map fst (cr_loffs r)) /\
+       (forall id, In id (map fst (cr_bins r)) <-> In id (map fst (cr_loffs r))) /\
+       (forall id, In id (map fst (cr_loffs r)) -> in_scheme (ci_depth i) id)) ->
+    exists i',
+      w_csi i = WOk (w_csi_bytes i) /\ read_csi (w_csi_bytes i) = Some i' /\
+      ci_ms i' = ci_ms i /\ ci_depth i' = ci_depth i /\
+      ci_header i' = option_map norm_header (ci_header i) /\
+      ci_unplaced i' = ci_unplaced i /\ length (ci_refs i') = length (ci_refs i) /\
+      forall k, (k < length (ci_refs i))%nat ->
+        let r := nth k (ci_refs i) empty_cref in
+        let r' := nth k (ci_refs i') empty_cref in
+        cr_bins r' = cr_bins r /\ cr_meta r' = cr_meta r /\
+        forall qs qe,
+          query Binned (ci_ms i) (ci_depth i) (cref_refidx r') qs qe
+          = query Binned (ci_ms i) (ci_depth i) (cref_refidx r) qs qe.
+Proof. exact csi_file_roundtrip_queries_any. Qed.
+Print Assumptions c17_csi_file_roundtrip_queries_any.
+
+(* ---- tabix: magic, n_ref, header (format, columns, meta, skip, NUL-terminated names), BAI-style
+   bins with the metadata pseudo-bin 37450, intervals, optional n_no_coor.  The index reads back
+   equal except that a header whose end column is Some(start column) reads back with None (for
+   generic formats the file stores end.unwrap_or(start)+1 and the reader maps end = start to
+   None; SAM/VCF store 0): the two are the same header on disk (c17_header_end_equiv). ---- *)
+Theorem c17_tabix_roundtrip :
+  forall i, tbi_ok i ->
+    w_tbi i = WOk (w_tbi_bytes i) /\ read_tbi (w_tbi_bytes i) = Some (reread_tbi i).
+Proof. exact tabix_roundtrip. Qed.
+Print Assumptions c17_tabix_roundtrip.
+
+Theorem c17_tabix_roundtrip_eq :
+  forall i, tbi_ok i ->
+    (forall h, ti_header i = Some h -> h_end h <> Some (h_beg h)) ->
+    read_tbi (w_tbi_bytes i) = Some i.
+Proof. exact tabix_roundtrip_eq. Qed.
+Print Assumptions c17_tabix_roundtrip_eq.
+
+Theorem c17_header_roundtrip :
+  forall h rest, header_ok h -> p_header (w_header h ++ rest) = Some (norm_header h, rest).
+Proof. exact p_header_w. Qed.
+Print Assumptions c17_header_roundtrip.
+
+Theorem c17_header_end_equiv :
+  forall h, w_header (norm_header h) = w_header h /\
+            (h_end h <> Some (h_beg h) -> norm_header h = h) /\
+            norm_header (norm_header h) = norm_header h.
+Proof. intros h. split; [apply w_header_norm|]. split; [apply norm_header_id|apply norm_header_idem]. Qed.
+Print Assumptions c17_header_end_equiv.
+
+(* non-vacuity: a CSI index with an aux header, an ancestor chain (bins 585 -> 73 -> 9), a
+   metadata pseudo-bin and an unplaced count; a tabix index with a generic header whose end
+   column equals its start column and a name with non-ASCII bytes *)
+From Coq Require Import Lia.
+Example c17_csi_layout_example :
+  let h := mkhdr FVcf 0 1 None 35 0 [[99; 104; 114; 49]; [200; 255]] in
+  let i := mkcsi 14 5 (Some h)
+             [mkcref [(585, [(100, 200)]); (73, [(50, 300)]); (9, [])] [(585, 100); (73, 50); (9, 70)]
+                     (Some (mkmeta 50 300 2 0)); mkcref [] [] None] (Some 7) in
+  csi_ok i /\ read_csi (w_csi_bytes i) = Some (reread_csi i) /\
+  cr_loffs (nth 0 (ci_refs (reread_csi i)) empty_cref) = [(585, 50); (73, 50); (9, 70)].
+Proof.
+  cbv zeta. split; [|split; vm_compute; reflexivity].
+  unfold csi_ok. cbn [ci_ms ci_depth ci_header ci_refs ci_unplaced].
+  split; [lia|]. split; [lia|]. split; [lia|]. split.
+  { split; [|vm_compute; reflexivity]. unfold header_ok. split; [vm_compute; reflexivity|].
+    split; [vm_compute; reflexivity|]. repeat constructor; cbn [In]; intuition discriminate. }
+  split; [vm_compute; reflexivity|]. split; [|vm_compute; reflexivity].
+  assert (Hmid : metadata_id 5 = 37450) by (vm_compute; reflexivity).
+  constructor; [|constructor; [|constructor]].
+  - unfold cref_ok. cbn [cr_bins cr_loffs cr_meta]. rewrite Hmid.
+    split.
+    { repeat constructor; cbn [fst snd length]; unfold u32, u64; try lia. }
+    split.
+    { cbn [map fst]. repeat constructor; cbn [In]; intuition discriminate. }
+    split; [cbn [length]; lia|]. split.
+    { cbn [map snd]. repeat constructor; unfold u64; lia. }
+    unfold meta_ok, u64. cbn [m_beg m_end m_mapped m_unmapped]. lia.
+  - unfold cref_ok. cbn [cr_bins cr_loffs cr_meta map length].
+    split; [constructor|]. split; [constructor|]. split; [lia|]. split; [constructor|exact I].
+Qed.
+
+Example c17_tabix_example :
+  let h := mkhdr (FGeneric true) 0 1 (Some 1) 35 0 [[200; 255]; []] in
+  let i := mktbi (Some h) [mkbref [(4681, [(10, 20)])] (Some (mkmeta 10 20 1 0)) [10]] None in
+  read_tbi (w_tbi_bytes i) = Some (reread_tbi i) /\ reread_tbi i <> i.
+Proof. cbv zeta. split; [vm_compute; reflexivity|]. intros E. discriminate E. Qed.
